@@ -11,8 +11,9 @@
   a PeerDown removes every entry of that peer.  `ribV m st key` is what `iter_reach` /
   `iter_reach_post` yield for that key.
 
-  Scope of the master theorem `C18_full_holds_partial`: every case of the case language without a
-  GR-retaining session end (see the theorem for the exact gap and finding S28h) — insert / remove /
+  Scope of the master theorem `C18_full_holds_partial`: every case of the case language, except BMP
+  connections / watch streams in cases with a GR-retaining session end (see the theorem for the exact
+  gap and finding S28h) — insert / remove /
   soft reset IN (from any thread) / import-policy change / session up with `register_peer` /
   non-retaining session down / GR-retaining session down / the bulk purges (`drop_stale_families`,
   `drop_families`, `mark_llgr_stale`, `drop_llgr_stale_families`; repaired: they withdraw what they
@@ -31,7 +32,7 @@
   the consumer state machines, for every input stream), `Rbgp.Monitor.ConsumerRun` (the consumer
   invariants `CInv` are preserved by every atomic step) and `Rbgp.Monitor.ConsumerMaster`.
 -/
-import Rbgp.Monitor.ConsumerMaster
+import Rbgp.Monitor.Retained
 namespace Rbgp.Monitor.Props
 open Rbgp.Monitor
 
@@ -45,27 +46,54 @@ def shardsOk (c : Case) : Bool := c.threads.all fun t => t.2.all fun o => match 
     consumer tasks (BMP connection, MRT dump, watch stream) included. -/
 def C18_full : Prop := ∀ c : Case, shardsOk c = true → Spec.check c (observe c (run c)) = .ok
 
-/-- THE MASTER THEOREM (partial since the checker was tightened, review r-7 item 2): every case in
-    which no session ends with GR retention (`noRetention`: no `gdown`) — any number of shards,
-    sessions, channel subscribers, BMP connections, MRT dumps and watch streams, any other
-    operations (non-retaining session ends, the purges, soft resets, policy changes), ANY schedule
-    string, at either granularity: the reference checker accepts the observation of the model's run.
+/-- THE MASTER THEOREM (partial since the checker was tightened, review r-7 item 2): the reference
+    checker accepts the observation of the model's run for
+    * every case without consumer tasks (`noBmp`): channel subscribers under ANY operations — the
+      GR-retaining session end and the purges included — any schedule string, either granularity
+      (for a retained key the subscriber holds what the table holds, or nothing with the PeerDown
+      of the key's peer as the last thing it was told about the key: invariant `SV`, every
+      reachable state); and
+    * every case in which no session ends with GR retention (`noRetention`: no `gdown`): any number
+      of channel subscribers, BMP connections, MRT dumps and watch streams, any other operations.
 
-    What is missing for `C18_full`: cases with GR retention.  There the checker now accepts a
-    subscriber that holds nothing for a retained (stale) key only if its own history justifies it
-    (held = table, or the PeerDown of the key's peer was the last thing it was told about the key,
-    or - consumer connections - nothing about that peer was ever announced).  (a) For BMP connections
-    and watch streams the statement is FALSE (`C18_full_fails`, finding S28h).  (b) For channel
-    subscribers it is unproved: the invariant `viewI` gives away a retained key altogether
-    (`∨ staleKey`), the proof needs `view = ribV ∨ (view = none ∧ last item = PeerDown)` for it;
-    backed by the correspondence run and the oracle on the real events only. -/
-theorem C18_full_holds_partial (c : Case) (h : shardsOk c = true) (hnr : noRetention c = true) :
+    What is missing for `C18_full`: BMP connections / watch streams in cases WITH GR retention.
+    There the statement is FALSE (`C18_full_fails`, finding S28h: a connection opened during
+    retention never learns the retained routes of a peer that re-establishes); the other shapes of
+    such cases are unproved for these two consumer kinds (oracle-backed only).  Channel
+    subscriptions and MRT dumps pass in EVERY case (`channel_subscription_ok`, `mrt_dump_ok`). -/
+theorem C18_full_holds_partial (c : Case) (h : shardsOk c = true) (hnr : noRetention c = true ∨ noBmp c = true) :
     Spec.check c (observe c (run c)) = .ok := by
-  apply check_run_ok_full_partial _ _ hnr
+  apply check_run_ok_partial2 _ _ hnr
   unfold shardsOk at h
   unfold caseOk
   rw [← h]
   congr 1
+
+/-- every channel subscription of every case passes the checker (GR retention, consumer tasks
+    next to it: whatever) -/
+theorem channel_subscription_ok (c : Case) (hc : caseOk c = true) (i nth : Nat) (r : SubRec)
+    (hr : r ∈ ((run c).threads i).mysubs) (hk : r.kind = 0) :
+    Spec.checkSub c (keyUniverse c) ((keyUniverse c).map fun key => (preOf (run c) key, postOf (run c) key))
+      ((keyUniverse c).map fun key => match (run c).rib key with
+        | some e => isStale (run c) key.peer e
+        | none => false)
+      (subObs (run c) (keyUniverse c) i nth r) = none := checkSub_chan_ret c hc i nth r hr hk
+
+/-- every MRT updates dump of every case passes the checker -/
+theorem mrt_dump_ok (c : Case) (hc : caseOk c = true) (i nth : Nat) (r : SubRec)
+    (hr : r ∈ ((run c).threads i).mysubs) (hk : r.kind = 2) :
+    Spec.checkSub c (keyUniverse c) ((keyUniverse c).map fun key => (preOf (run c) key, postOf (run c) key))
+      ((keyUniverse c).map fun key => match (run c).rib key with
+        | some e => isStale (run c) key.peer e
+        | none => false)
+      (subObs (run c) (keyUniverse c) i nth r) = none := checkSub_mrt c hc i nth r hr hk
+
+/-- The invariant behind the channel part: in every state reachable by any interleaving, for a key
+    the table holds as a GR-retained route, a live subscriber that was told about the key or has
+    snapshotted its shard holds what the table holds, or holds nothing and the PeerDown of the key's
+    peer is the last thing it was told about the key. -/
+theorem retained_key_invariant (c : Case) (hc : caseOk c = true) (st : St) (h : Reach c st) : SV st :=
+  reach_sv hc h
 
 /-- A connection opened while a peer's routes are GR-retained, the peer re-established afterwards:
     the BMP station is told PeerUp but never the retained route the table still holds. -/
@@ -94,10 +122,10 @@ example : (observe retainedLateChan (run retainedLateChan)).stale = [true] ∧
     view false ⟨0, 0, 0, 0⟩ ((run retainedLateChan).queues 0) = some 10005 ∧
     Spec.check retainedLateChan (observe retainedLateChan (run retainedLateChan)) = .ok := by decide
 
-/-- (the part proved first: every case without consumer tasks) -/
-theorem check_run_ok (c : Case) (hc : caseOk c = true) (hb : noBmp c = true) (hnr : noRetention c = true) :
+/-- every case without consumer tasks (channel subscribers; GR retention included) -/
+theorem check_run_ok (c : Case) (hc : caseOk c = true) (hb : noBmp c = true) :
     Spec.check c (observe c (run c)) = .ok :=
-  check_run_ok_of_noBmp c hc hb (no_stale hnr (run_reach c))
+  check_run_ok_chan c hc hb
 
 /-- The case that refuted the property before the purges were repaired (S28b): a session ends with
     GR negotiated (PeerDown is sent, the routes are retained as stale), a subscriber then subscribes
@@ -361,6 +389,9 @@ end Rbgp.Monitor.Props
 
 #print axioms Rbgp.Monitor.Props.C18_full_holds_partial
 #print axioms Rbgp.Monitor.Props.C18_full_fails
+#print axioms Rbgp.Monitor.Props.channel_subscription_ok
+#print axioms Rbgp.Monitor.Props.mrt_dump_ok
+#print axioms Rbgp.Monitor.Props.retained_key_invariant
 #print axioms Rbgp.Monitor.Props.check_run_ok
 #print axioms Rbgp.Monitor.Props.bmp_peerdown_after_peerup
 #print axioms Rbgp.Monitor.Props.watch_peerdown_after_peerup
